@@ -12,6 +12,37 @@ LibDate == INSTANCE XlDate
 LibAgg == INSTANCE XlAgg
 LibCrit == INSTANCE XlCrit
 LibFin == INSTANCE XlFin
+LibMath == INSTANCE XlMath
+
+\* ---- bridge to the math family: XlMath computes on decimal digit sequences; a short rational of the common value encoding
+\* is that decimal, an exact decimal result is that rational again (results XlMath only bounds - "near", "ref" - stay Open here:
+\* they need the harness's floating-point oracle, which the trace specification of C16 has and the formula evaluator has not)
+RatToDec(x) ==
+    LET k == DecPlaces(x.d) IN
+    IF k < 0 \/ Abs(x.n) > 2000000000 \div Pow10(k) THEN Open
+    ELSE LibMath!Dec(x.n < 0, LibMath!NatDigits((Abs(x.n) * Pow10(k)) \div x.d), -k)
+DecToRat(d) ==
+    IF LibMath!IsZero(d) THEN Whole(0)
+    ELSE IF Len(d.dg) > 9 \/ d.e > 9 - Len(d.dg) \/ d.e < -6 THEN Open
+    ELSE LET m == LibMath!NatVal(d.dg)
+             v == IF d.e >= 0 THEN Rat(m * Pow10(d.e), 1) ELSE Rat(m, Pow10(-d.e))
+         IN IF d.neg THEN RNeg(v) ELSE v
+MathExact == {"ROUND", "ROUNDUP", "ROUNDDOWN", "TRUNC", "INT", "EVEN", "CEILING", "FLOOR", "MOD", "ABS", "SIGN", "FACT",
+              "FACTDOUBLE", "ISEVEN", "ISODD", "SQRT", "POWER"}
+MathBridge(f, a) ==
+    LET fe == FirstErr(a) IN
+    IF fe.t = "err" THEN fe
+    ELSE IF \E i \in 1..Len(a) : a[i].t \in {"open", "anyerr", "arr"} THEN Open
+    ELSE LET ns == [i \in 1..Len(a) |-> ToNum(a[i])] IN
+         IF \E i \in 1..Len(a) : ns[i].t = "err" THEN Err("#VALUE!")
+         ELSE IF \E i \in 1..Len(a) : ns[i].t # "num" THEN Open
+         ELSE LET ds == [i \in 1..Len(a) |-> RatToDec(ns[i])] IN
+              IF \E i \in 1..Len(a) : ds[i].t # "dec" THEN Open
+              ELSE LET r == LibMath!MathCall(f, ds) IN
+                   CASE r.t = "dec"    -> DecToRat(r)
+                     [] r.t = "bool"   -> r
+                     [] r.t = "anyerr" -> r
+                     [] OTHER          -> Open
 
 HasErr(a) == \E i \in 1..Len(a) : a[i].t = "err"
 HasDate(a) == \E i \in 1..Len(a) : a[i].t = "date"
@@ -25,5 +56,6 @@ LibCall(f, a) ==
       [] f \in LibAgg!AggFuncs -> IF HasErr(a) THEN Open ELSE LibAgg!AggCall(f, a)
       [] f \in LibCrit!CritFuncs -> LibCrit!CritCall(f, a)
       [] f \in LibFin!FinFuncs -> LibFin!FinCall(f, a)
+      [] f \in MathExact -> MathBridge(f, a)
       [] OTHER -> Open
 =============================================================================
